@@ -254,6 +254,23 @@ func dispatch(f []string) string {
 		return fmt.Sprintf("ok %d", engine.VerifLazyEval(gen, atoi(f[2]), atoi(f[3]), atoi(f[4])))
 	case "blend": // blend <materialSum> <mid> <end>
 		return fmt.Sprintf("ok %d", engine.VerifBlend(atoi(f[1]), atoi(f[2]), atoi(f[3])))
+	case "blendbound": // blendbound <maxSum> <B>: max |blend msum mid end| over 0<=msum<=maxSum, |mid|,|end|<=B (exhaustive)
+		maxSum, b := atoi(f[1]), atoi(f[2])
+		worst, wm, wa, we := 0, 0, 0, 0
+		for m := 0; m <= maxSum; m++ {
+			for a := -b; a <= b; a++ {
+				for e := -b; e <= b; e++ {
+					v := engine.VerifBlend(m, a, e)
+					if v < 0 {
+						v = -v
+					}
+					if v > worst {
+						worst, wm, wa, we = v, m, a, e
+					}
+				}
+			}
+		}
+		return fmt.Sprintf("ok %d at %d %d %d", worst, wm, wa, we)
 	case "mv": // mv <hex string> -> parseMoveString
 		b, _ := hex.DecodeString(f[1])
 		from, to, promo, err := engine.VerifParseMove(string(b))
